@@ -21,10 +21,10 @@ if [ -f "$d/seeded_demo_test.go" ]; then
   git apply -R "$d/patch.diff"
   if $demo > "$wt/.demo2.log" 2>&1; then res="$res demo-passes-on-unchanged"; else res="$res DEMO-FAILS-ON-UNCHANGED"; fi
 elif [ -f "$d/seeded_demo.py" ]; then
-  cp "$d/seeded_demo.py" .
-  if python3 seeded_demo.py > "$wt/.demo1.log" 2>&1; then res="$res DEMO-PASSES-ON-CHANGED"; else res="$res demo-fails-on-changed"; fi
+  cp "$d/seeded_demo.py" conf/seeded_demo.py
+  if python3 conf/seeded_demo.py > "$wt/.demo1.log" 2>&1; then res="$res DEMO-PASSES-ON-CHANGED"; else res="$res demo-fails-on-changed"; fi
   git apply -R "$d/patch.diff"
-  if python3 seeded_demo.py > "$wt/.demo2.log" 2>&1; then res="$res demo-passes-on-unchanged"; else res="$res DEMO-FAILS-ON-UNCHANGED"; fi
+  if python3 conf/seeded_demo.py > "$wt/.demo2.log" 2>&1; then res="$res demo-passes-on-unchanged"; else res="$res DEMO-FAILS-ON-UNCHANGED"; fi
 fi
 echo "CONFIRM $(basename $(dirname $d)):$res"
 case "$res" in *[A-Z][A-Z][A-Z]*) tail -15 "$wt"/.suite.log "$wt"/.demo1.log "$wt"/.demo2.log 2>/dev/null | tail -40;; esac
